@@ -80,13 +80,16 @@ def unpack(raw: bytes) -> dict:
             'timestamp': timestamp, 'bits': bits, 'nonce': nonce}
 
 
-def mine(version, prev_hash, merkle, claimtrie, timestamp, bits, target, start_nonce=0, want_valid=True, max_tries=1 << 22):
-    """find a nonce whose PoW value is <= target (or > target when want_valid is False)."""
+def mine(version, prev_hash, merkle, claimtrie, timestamp, bits, target, start_nonce=0, want_valid=True, max_tries=1 << 22, above=None):
+    """find a nonce whose PoW value is <= target (or > target when want_valid is False).  With `above` the value must also be
+    > above (used to mine into the sliver between the compact-decoded and the full-precision target); a miner that honours
+    consensus passes target = compact_to_target(bits)."""
     head = struct.pack('<I', version) + prev_hash + merkle + claimtrie + struct.pack('<II', timestamp, bits)
     nonce = start_nonce
     for _ in range(max_tries):
         raw = head + struct.pack('<I', nonce & 0xffffffff)
-        if (pow_value(raw) <= target) == want_valid:
+        pv = pow_value(raw)
+        if (pv <= target) == want_valid and (above is None or pv > above):
             return raw
         nonce += 1
     raise RuntimeError('mining budget exhausted')
@@ -104,8 +107,13 @@ def check_header(raw, height, prev_raw, prevprev_raw, max_target, genesis_hash_h
     target = next_target(max_target, prevprev, prev)
     if h['bits'] != target_to_compact(target):
         return 'bits'
-    if pow_value(raw) > target:
+    pv = pow_value(raw)
+    if pv > target:
         return 'pow'
+    if pv > compact_to_target(h['bits']):
+        # consensus (CheckProofOfWork) compares with the target DECODED FROM THE BITS, which is the full-precision target
+        # truncated to the compact mantissa: a hash in the sliver between the two does not meet the header's target
+        return 'pow-above-compact-target'
     return None
 
 
